@@ -752,13 +752,31 @@ fn big_delivery_body(case: &BigDelivery, ctx: &mut CaseCtx) -> PropResult {
 #[derive(Clone, Debug, Serialize, Deserialize)]
 pub struct BlobCase {
     /// 0 MaterialColors::decode, 1 Tags::decode, 2 Terrain.MaterialColors in a binary file, 3 the same in XML,
-    /// 4 Instance.Tags in a binary file, 5 Instance.Tags in XML
+    /// 4 Instance.Tags in a binary file, 5 Instance.Tags in XML, 6 UniqueId::from_str of the bytes read as
+    /// (lossy) UTF-8 fitted to 32 bytes, 7 the same text inside an XML <UniqueId> element
     pub route: u8,
     pub bytes: Vec<u8>,
 }
 
+/// The bytes as text of exactly 32 bytes (the length UniqueId's text form has): multi-byte characters
+/// land on arbitrary offsets, the rest is padded with hex digits.
+fn text32(bytes: &[u8]) -> String {
+    let mut out = String::new();
+    for ch in String::from_utf8_lossy(bytes).chars() {
+        let ch = if ch.is_control() || ch == '<' || ch == '&' || ch == '>' { 'a' } else { ch };
+        if out.len() + ch.len_utf8() > 32 {
+            break;
+        }
+        out.push(ch);
+    }
+    while out.len() < 32 {
+        out.push('0');
+    }
+    out
+}
+
 fn blob_body(c: &BlobCase, ctx: &mut CaseCtx) -> PropResult {
-    ctx.label(["blob:MaterialColors::decode", "blob:Tags::decode", "blob:MaterialColors-in-binary", "blob:MaterialColors-in-xml", "blob:Tags-in-binary", "blob:Tags-in-xml"][(c.route % 6) as usize]);
+    ctx.label(["blob:MaterialColors::decode", "blob:Tags::decode", "blob:MaterialColors-in-binary", "blob:MaterialColors-in-xml", "blob:Tags-in-binary", "blob:Tags-in-xml", "text:UniqueId::from_str", "text:UniqueId-in-xml"][(c.route % 8) as usize]);
     ctx.nontrivial_if(!c.bytes.is_empty());
     let in_binary = |class: &str, prop: &str| -> Vec<u8> {
         let cls = refbin::BinClass { id: 0, name: class.to_string(), object_format: 0, referents: vec![0], markers: vec![] };
@@ -775,7 +793,12 @@ fn blob_body(c: &BlobCase, ctx: &mut CaseCtx) -> PropResult {
         let b64 = base64::encode(&c.bytes);
         format!("<roblox version=\"4\"><Item class=\"{class}\" referent=\"R1\"><Properties><string name=\"Name\">t</string><BinaryString name=\"{prop}\">{b64}</BinaryString></Properties></Item></roblox>").into_bytes()
     };
-    let outcome = match c.route % 6 {
+    let outcome = match c.route % 8 {
+        6 => catch(|| text32(&c.bytes).parse::<rbx_types::UniqueId>().is_ok()).map(|_| ()),
+        7 => {
+            let doc = format!("<roblox version=\"4\"><Item class=\"Folder\" referent=\"R1\"><Properties><UniqueId name=\"UniqueId\">{}</UniqueId></Properties></Item></roblox>", text32(&c.bytes));
+            catch(|| rbx_xml::from_reader_default(doc.as_bytes()).is_ok()).map(|_| ())
+        }
         0 => catch(|| rbx_types::MaterialColors::decode(&c.bytes).is_ok()).map(|_| ()),
         1 => catch(|| rbx_types::Tags::decode(&c.bytes).is_ok()).map(|_| ()),
         2 => catch(|| rbx_binary::from_reader(in_binary("Terrain", "MaterialColors").as_slice()).is_ok()).map(|_| ()),
@@ -1122,9 +1145,11 @@ pub fn run(ctx: &Ctx) -> PropertyReport {
         let cases = ctx.cfg.cases(60_000, 2_000_000);
         let strat = || {
             (
-                0u8..6,
+                0u8..8,
                 prop_oneof![
                     3 => proptest::collection::vec(any::<u8>(), 0..80),
+                    2 => vals::text(TextMode::Any).prop_map(|t| t.into_bytes()),
+                    2 => (proptest::collection::vec(proptest::sample::select(vec!['0', 'f', 'A', '9', '\u{e9}', '\u{20AC}', '\u{1F600}', ' ']), 8..32)).prop_map(|v| v.into_iter().collect::<String>().into_bytes()),
                     1 => (0usize..80).prop_map(|n| vec![0u8; n]),
                     1 => (60usize..80, any::<u8>()).prop_map(|(n, b)| vec![b; n]),
                 ],
